@@ -106,8 +106,14 @@ class AllreduceTensorBucket:
 
         def _callback(future: FutureType) -> None:  # pragma: no cover
             tensors = unflatten(future.value(), self._tensors)
-            for sub_tensor, sub_future in zip(tensors, self._futures):
-                sub_future.set_result(sub_tensor)
+            for tensor, sub_tensor, sub_future in zip(
+                self._tensors,
+                tensors,
+                self._futures,
+            ):
+                # flatten() type promotes tensors of different dtypes so
+                # the result is cast back to the dtype of the input tensor
+                sub_future.set_result(sub_tensor.to(tensor.dtype))
             # No longer need to hold strong references to items in these lists
             self._tensors.clear()
             self._futures.clear()
